@@ -297,6 +297,7 @@ def main():
     known = [k for k in load_known() if k.get("property") == pid and k.get("status") == "known"]
     known_hits = {}
     counters = {}
+    engine_panics = []
     for eng in spec["engines"]:
         name = eng["name"]
         if ("Corr_" + name) not in built:
@@ -316,7 +317,12 @@ def main():
             else:
                 rtier = tier
             cases, rc, stderr = run_engine(binary, name, eseed, n, rtier)
-            if rc != 0:
+            if rc == 3 and "ENGINE-PANIC" in stderr:
+                # the implementation panicked under the harness: a C08 violation whoever asked
+                engine_panics.append({"engine": name, "profile": profile, "seed": eseed, "n": n, "tier": rtier,
+                                      "what": "the implementation panicked while the harness drove it (no catch_unwind expected this)",
+                                      "stderr": stderr[-1500:], "cases_completed": len(cases)})
+            elif rc != 0:
                 harness_errors.append(f"harness {name} ({profile}) exited {rc}: {stderr[-500:]}")
             if not cases:
                 continue
@@ -371,7 +377,17 @@ def main():
             # nothing is reported for it (the finding may have been repaired)
             log(f"known finding {k['id']} did not manifest in this run")
 
-    if new_oracle:
+    if engine_panics and pid == "C08":
+        path = write_replay(pid, seed, engine_panics[0])
+        lines.append(f"VIOLATION property={pid} replay={path}")
+        violations = len(engine_panics)
+        rc = 1
+    elif engine_panics:
+        for e in engine_panics:
+            harness_errors.append(f"implementation panicked under engine {e['engine']}: {e['stderr'][-300:]}")
+    if rc == 1:
+        pass
+    elif new_oracle:
         f = shrink_pick(new_oracle)
         f["model_output"] = coqeval.model_output(f["engine"], f["case"])
         f["what"] = "property oracle is false on the implementation's output for this input"
